@@ -35,6 +35,9 @@
 #ifndef REGION
 #define REGION 0
 #endif
+#ifndef RMAX
+#define RMAX 3
+#endif
 #define W0 0
 #define W1 4
 static int r, has_w1, p, ins;
@@ -61,22 +64,12 @@ static void check_ready_state(void)
     }
 }
 
-int main(void)
+/* one scenario; r_, w_, p_ are compile-time constants at every call site (CBMC propagates them), so the
+ * pointer structure built by the real code stays concrete inside a scenario */
+static void scenario(int r_, int w_, int p_)
 {
+    r = r_; has_w1 = w_; p = p_;
     vp_env_init();
-    r = IN_RANGE(0, 3); has_w1 = IN_BOOL();
-#ifdef RFIX
-    VASSUME(r == RFIX); r = RFIX;
-#endif
-#ifdef W1FIX
-    VASSUME(has_w1 == W1FIX); has_w1 = W1FIX;
-#endif
-#ifdef P
-    p = P;
-#else
-    p = IN_RANGE(0, 4);
-#endif
-    VASSUME(p <= r + has_w1);
     /* access modes / flag bits are enumerated by spec.py: a symbolic op word makes every branch on
      * (op & PARSEC_GET_OP_TYPE) symbolic and with it every task pointer of the chain */
     const int opw0 = OPW0, opw1 = OPW1, region = REGION;
@@ -140,5 +133,15 @@ int main(void)
     if(r == 2 && has_w1 && p == 0) VWITNESS("first writer ran before any successor was inserted");
     if(r == 3 && has_w1 && p == 4) VWITNESS("first writer ran after the whole chain was inserted");
     if(r == 0 && has_w1) VWITNESS("writer directly behind writer");
+}
+
+int main(void)
+{
+    /* the structural choices are INPUTS of the query: the solver picks (r, has_w1, p); the dispatch below only
+     * arranges that each choice is unfolded from the initial state (no merged pointer states) */
+    int r_in = IN_RANGE(0, RMAX), w_in = IN_BOOL(), p_in = IN_RANGE(0, RMAX + 1);
+    VASSUME(p_in <= r_in + w_in);
+    for(int rr = 0; rr <= RMAX; rr++) for(int ww = 0; ww <= 1; ww++) for(int pp = 0; pp <= rr + ww; pp++)
+        if(r_in == rr && w_in == ww && p_in == pp) { scenario(rr, ww, pp); return 0; }
     return 0;
 }
